@@ -191,11 +191,14 @@ def render_stage(R, tier):
     rid = 0
     n = 60 if tier == 'quick' else 800
     for i in range(n):
-        pr = gen.randprofile(rng, maxc=6, maxlines=8, maxm=4, wd=True, und=True, eq=False)
+        sliver = (i % 6 == 5)
+        pr = gen.randprofile(rng, maxc=6, maxlines=8, maxm=4, wd=True, und=True, eq=False) if not sliver else gen.sliverprofile(rng)
         blt = drive.mkblt(**pr)
         for rule in drive.RULES:
             opts = dict(rule=rule)
-            if rule in ('wigm', 'meek', 'warren') and rng.random() < 0.7:
+            if sliver and rule in ('wigm', 'meek', 'warren'):
+                opts = dict(rule=rule, arithmetic='guarded', precision=rng.choice([2, 3]), guard=rng.choice([1, 2, 3]))
+            elif rule in ('wigm', 'meek', 'warren') and rng.random() < 0.7:
                 opts = rng.choice(gen.configs(rule, all_=True))[0]
                 if rule != 'wigm' and opts.get('arithmetic') == 'rational':
                     opts = dict(rule=rule)
@@ -221,6 +224,10 @@ def render_stage(R, tier):
         R.cov['traces_validated_against_impl'] += len(chunk)
         for x in chunk:
             fails = out[x['id']]
+            known = known_ids()
+            if any(cl == 'KNOWN_F20' for cl, k in fails) and 'F20' in known:
+                R.known_finding('F20', known['F20']['text'])
+                fails = [f for f in fails if f[0] != 'KNOWN_F20']
             if fails:
                 blt, opts = meta[x['id']]
                 cl, k = fails[0]
@@ -359,6 +366,7 @@ def check_counts(prop, tier):
     if prop == 'C18':
         render_stage(R, tier)
     if prop == 'C07':
+        model_meta_stage(R, prop, tier)
         pair_stage(R, prop, pairs.gen_c07e(rng, 30 if tier == 'quick' else 500, drive.RULES), known)
     R.cov['distinct_nontrivial'] += len(inputs)
     R.cov['rule'] = ('profiles from shaped generators %s (seeded), every rule name in %s x arithmetic configurations of gen.py; '
@@ -547,7 +555,7 @@ def check_pairs(prop, tier):
         R.cov['rule'] = 'pairs (canonical file, another presentation of the same ballots: permuted/split/merged lines, comments, layout, nicknames) x all rules; TLC evaluates SameHistory (Pairs.tla) plus the byte-equality observations'
     elif prop == 'C11':
         model_meta_stage(R, prop, tier)
-        pair_stage(R, prop, pairs.gen_c11(rng, n, drive.RULES), known)
+        pair_stage(R, prop, pairs.gen_c11(rng, 2 * n, drive.RULES), known)
         R.cov['rule'] = 'pairs (profile, profile with candidate ids permuted) -> FinalDiff; (profile with withdrawn, profile with them deleted) -> SameByName; all rules'
     elif prop == 'C13':
         arith_stage(R, prop, tier)
@@ -562,8 +570,43 @@ def check_pairs(prop, tier):
     return R.finish()
 
 
+META_LEMMA = {'C07': ('TieIndependent', 'C07e'), 'C10': ('PresentationIndependent', 'C10'), 'C11': ('Neutral', 'C11a')}
+
+
 def model_meta_stage(R, prop, tier):
-    pass
+    """
+    (M) the metamorphic lemma at design level: the specification's count as a function (`Run') is evaluated on both members of
+    every pair of the bounded scope inside one TLC invariant.  A counterexample is replayed into the real code as a pair.
+    """
+    lemma, rel = META_LEMMA[prop]
+    cfgs = [model.STATUTORY_CFG['wigm-prf'], model.STATUTORY_CFG['scotland'], model.STATUTORY_CFG['cfer-batch'], model.STATUTORY_CFG['mpls'],
+            model.cfgrec('meek', p=3, omega10=2, batch='safe'), model.cfgrec('qpq', kind='guarded', p=3, g=2)]
+    if tier == 'thorough':
+        cfgs = model_configs()
+    sc = dict(nc=3, maxb=3 if tier == 'quick' else 4, maxm=2, seatset=(1, 2), ties=[(1, 2, 3), (3, 1, 2)])
+    res = model.mc_run(cfgs, check=[], lemmas=[lemma], timeout=600 if tier == 'quick' else 3000, **sc)
+    R.add_tlc(res)
+    iv = model.invariant_violation(res['out'])
+    R.stage('model-check lemma ' + lemma, scope=str(sc), configs=[c['rule'] for c in cfgs], distinct_states=res['distinct'],
+            wall_s=round(res['wall'], 1), invariant_violated=iv[0] if iv else None)
+    if iv:
+        pl = [p for k, p in model.fails_of(res['out']) if k == 'METAFAIL']
+        if not pl:
+            raise vlib.Machinery('lemma %s violated without payload:\n%s' % (lemma, res['out'][-2000:]))
+        p = pl[0]
+        b1, o1, l1 = model.header_to_input(p['h'])
+        b2, o2, l2 = model.header_to_input(p['h2'])
+        A, B = pairs.run2(b1, o1, l1, b2, o2, l2)
+        pp = pairs.mkpair(rel, A, B, nmap=p['map'], obs=pairs.text_obs(A, B))
+        pp['id'] = 1
+        out, _ = vlib.judge_pairs([pp], workers=1)
+        if out[1][1]:
+            R.violation('%s: design-level counterexample of lemma %s reproduced on the real code (rule %s): %s' % (prop, lemma, p['h']['rule'], out[1][1][:3]),
+                        dict(blt_a=b1, blt_b=b2, options=o1, lowprec=l1, failed=out[1][1]))
+        else:
+            raise vlib.Machinery('SPEC-DIVERGENCE: lemma %s fails in the specification for rule %s but the real code satisfies it: %s' % (lemma, p['h']['rule'], json.dumps(p['diff'])[:300]))
+    elif 'Error:' in res['out']:
+        raise vlib.Machinery('TLC error:\n' + res['out'][-3000:])
 
 
 def arith_stage(R, prop, tier):
@@ -685,6 +728,31 @@ def check_c20(tier):
             o = pairs.base_obs()
             o.update(obs)
             items.append((dict(rel='C20', a=a, b=b, map=list(range(1, a['nc'] + 1)), obs=o, unit=0), info))
+    # the same PROFILE OBJECT counted again in fresh Election objects (also under another rule in between)
+    nshared = 0
+    for (o, lp) in history.TARGET_CONFIGS + [({'rule': 'meek', 'arithmetic': 'fixed', 'precision': 4}, None), ({'rule': 'warren', 'arithmetic': 'fixed', 'precision': 3}, None)]:
+        for b in ([history.EQ_BLT] if o['rule'] in ('meek', 'warren') else []) + [history.BLTS[0]]:
+            prof = drive.ElectionProfile(data=b)
+            first = fresh.outputs(b, o, lp, profile=prof)
+            other = ({'rule': 'warren', 'arithmetic': 'fixed', 'precision': 3}, None) if o['rule'] == 'meek' else ({'rule': 'meek', 'arithmetic': 'fixed', 'precision': 3}, None)
+            fresh.outputs(b, other[0], other[1], profile=prof)
+            second = fresh.outputs(b, o, lp, profile=prof)
+            ref2 = fresh.outputs(b, o, lp)            # freshly parsed copy of the same text
+            nshared += 1
+            obs = dict(same_report=second.get('report') == ref2.get('report'), same_dump=second.get('dump') == ref2.get('dump'),
+                       same_json=second.get('json') == ref2.get('json'),
+                       same_twice=(first.get('report'), first.get('dump'), first.get('json'), first['outcome']) == (second.get('report'), second.get('dump'), second.get('json'), second['outcome']))
+            info = (b, '(same profile object, counted again)', dict(target=o), lp)
+            if second['trace'] is None or ref2['trace'] is None or second['outcome'] != 'ok':
+                if not all(obs.values()):
+                    R.violation('C20: counting the same profile object again gives a different record: %s (%s)' % (o, [k for k, v in obs.items() if not v]), dict(blt=b, options=o))
+                continue
+            a, bb = second['trace'], ref2['trace']
+            a['id'] = bb['id'] = 0
+            ob = pairs.base_obs()
+            ob.update(obs)
+            items.append((dict(rel='C20', a=a, b=bb, map=list(range(1, a['nc'] + 1)), obs=ob, unit=0), info))
+    R.cov['shared_profile_recounts'] = nshared
     pair_stage(R, prop, items, known)
     R.cov['histories'] = nh
     R.cov['targets'] = len(targets)
@@ -797,6 +865,7 @@ def check_blt(prop, tier):
     for _ in range(nwf):
         e = blt.abstract_election(rng, maxc=6 if rng.random() < 0.9 else 9)
         texts.append((blt.render_wf(rng, e), blt.denote(e)))
+    texts += [(t, None) for t in blt.edge_texts(rng)]
     if prop == 'C16' or tier == 'thorough':
         texts += [(t, None) for t in blt.fuzz_texts(rng, nfz)]
     else:
